@@ -231,11 +231,16 @@ def op_getter(c):
     if found:
         gd, r4 = guard(lambda: GetFromPaths().get_data(found[0], attributes=attrs, sid_encode=encf))
         ga, r5 = guard(lambda: GetFromPaths().get_attr(found[0], 'n'))
+        gs, r5b = guard(lambda: GetFromPaths().get_attr(found[0], 'sid'))
+        gs2, r5c = guard(lambda: GetFromAll().get_attr(found[0], 'sid'))
+        o['get_attr_sid'] = [enc(gs) if gs is not None else '%None', enc(gs2) if gs2 is not None else '%None']
+        r5 = r5 or r5b or r5c
         o['get_data'] = _rec(gd or {})
         o['get_attr'] = enc(ga) if ga is not None else '%None'
         o['raised'] = o['raised'] or r4 or r5
     else:
         o['get_data'] = []
+        o['get_attr_sid'] = []
         o['get_attr'] = '%None'
     allr, r6 = guard(lambda: list(GetFromAll().get(s, sid_encode=str)))
     o['raised'] = o['raised'] or r6
@@ -277,4 +282,32 @@ def op_algebrafs(c):
         d['parts'] = [run(p) for p in c['parts']]
         d['name'] = name
         o['runs'].append(d)
+    return o
+
+
+def op_getlast(c):
+    """C09: Sid.get_last(key) is the single answer of the '>' search - before and after the data changes"""
+    ensure(c['univ'], False)
+    s = '/'.join(dec(x) for x in c['segs'])
+    key = c['key']
+    pc = pathconf()
+    a, r1 = guard(lambda: Sid(s).get_last(key))
+    o = dict(raised=r1, first=snap(a) if not r1 else snap(None))
+    # the data changes: a greater value appears next to the Sid (created directly on disk by the harness)
+    bumped = Sid(s).get_with(**{key: c['bump']})
+    made = []
+    for cfg in pc['cfgs']:
+        p = bumped.path(cfg) if bumped else None
+        if p and not p.exists():
+            p.mkdir(parents=True)
+            made.append(p)
+    b, r2 = guard(lambda: Sid(s).get_last(key))
+    o['second'] = snap(b) if not r2 else snap(None)
+    o['raised'] = o['raised'] or r2
+    o['bumped'] = snap(bumped)
+    o['created'] = bool(made)
+    for p in made:
+        p.rmdir()
+    c_, r3 = guard(lambda: Sid(s).get_last(key))
+    o['third'] = snap(c_) if not r3 else snap(None)
     return o
